@@ -14,7 +14,10 @@ EXTENDS Naturals, Integers, TLC
 
 Cmds == {"c", "a", "l", "x", "t", "i"}
 (* condition of the archive the command meets *)
-Conds == {"intact", "header-damaged", "data-damaged", "needs-password", "unsupported-method", "absent", "exists"}
+Conds == {"intact", "intact-empty", "intact-dirs", "header-damaged", "data-damaged", "stored-damaged", "needs-password", "unsupported-method", "absent", "exists"}
+(* intact-empty: an archive without members; intact-dirs: directories only (no packed streams at all);                      *)
+(* stored-damaged: a byte of a stored (Copy) member changed - no decoder notices, only the member's CRC                     *)
+Good == {"intact", "intact-empty", "intact-dirs"}
 (* option class: volume size argument (for c), or none *)
 Opts == {"none", "verbose", "vol-digits", "vol-b", "vol-k", "vol-m", "vol-g", "vol-bad-unit", "vol-empty", "no-suffix", "cwd"}
 
@@ -24,16 +27,16 @@ Meaningful(cmd, cond, opt) ==
   CASE cmd = "i" -> cond = "absent" /\ opt = "none"
     [] cmd = "c" -> cond \in {"absent", "exists"} /\ opt \in {"none", "no-suffix", "vol-digits", "vol-b", "vol-k", "vol-m", "vol-g", "vol-bad-unit", "vol-empty"}
     [] cmd = "a" -> cond \in {"intact", "absent"} /\ opt = "none"
-    [] cmd = "l" -> cond \in {"intact", "header-damaged", "data-damaged", "needs-password"} /\ opt \in {"none", "verbose"}
-    [] cmd = "x" -> cond \in {"intact", "header-damaged", "data-damaged", "needs-password", "unsupported-method"} /\ opt \in {"none", "verbose", "cwd"}
-    [] cmd = "t" -> cond \in {"intact", "header-damaged", "data-damaged", "needs-password", "unsupported-method"} /\ opt = "none"
+    [] cmd = "l" -> cond \in Good \cup {"header-damaged", "data-damaged", "stored-damaged", "needs-password"} /\ opt \in {"none", "verbose"}
+    [] cmd = "x" -> cond \in Good \cup {"header-damaged", "data-damaged", "stored-damaged", "needs-password", "unsupported-method"} /\ opt \in {"none", "verbose", "cwd"}
+    [] cmd = "t" -> cond \in Good \cup {"header-damaged", "data-damaged", "stored-damaged", "needs-password", "unsupported-method"} /\ opt = "none"
 
 Succeeds(cmd, cond, opt) ==
   CASE cmd = "i" -> TRUE
     [] cmd = "c" -> cond = "absent" /\ (opt \in {"none", "no-suffix"} \/ VolumeValid(opt))
     [] cmd = "a" -> cond = "intact"
-    [] cmd = "l" -> cond \in {"intact", "data-damaged", "needs-password"}      \* listing reads the (unencrypted) header only
-    [] cmd \in {"x", "t"} -> cond = "intact"
+    [] cmd = "l" -> cond \in Good \cup {"data-damaged", "stored-damaged", "needs-password"}      \* listing reads the (unencrypted) header only
+    [] cmd \in {"x", "t"} -> cond \in Good
 
 VARIABLES cmd, cond, opt, exit
 vars == <<cmd, cond, opt, exit>>
